@@ -22,16 +22,16 @@ ConnOK(x, o) == PinOK(x, o.success) /\ (Configured(x) => (o.success => o.eqfold)
 \* StepCase(c, i) alone: history independence
 Verdicts ==
     l >= 1 => LET r == Trace[l] IN
-              IF IsSeq(r.c) THEN \A i \in 1..Len(r.c.steps) : Monitor(ConnOK(StepCase(r.c, i), r.steps[i]), [l |-> l, step |-> i])
+              IF IsMulti(r.c) THEN \A i \in 1..NSteps(r.c) : Monitor(ConnOK(StepOf(r.c, i), r.steps[i]), [l |-> l, step |-> i])
               ELSE Monitor(ConnOK(r.c, r), [l |-> l, step |-> 0])
 \* the token table and the real texts must agree (otherwise the harness is wrong)
 Harness ==
     l >= 1 => LET r == Trace[l] IN
-              IF IsSeq(r.c) THEN \A i \in 1..Len(r.c.steps) : ((r.steps[i].eqfold = Match(StepCase(r.c, i))) \/ Emit("HARNESS", [l |-> l, step |-> i]))
+              IF IsMulti(r.c) THEN \A i \in 1..NSteps(r.c) : ((r.steps[i].eqfold = Match(StepOf(r.c, i))) \/ Emit("HARNESS", [l |-> l, step |-> i]))
               ELSE (r.eqfold = Match(r.c)) \/ Emit("HARNESS", [l |-> l, step |-> 0])
 Drift ==
     l >= 1 => LET r == Trace[l] IN
-              IF IsSeq(r.c) THEN \A i \in 1..Len(r.c.steps) : ((r.steps[i].success = ConnectImpl(StepCase(r.c, i))) \/ Emit("DRIFT", [l |-> l, step |-> i]))
+              IF IsMulti(r.c) THEN \A i \in 1..NSteps(r.c) : ((r.steps[i].success = ConnectImpl(StepOf(r.c, i))) \/ Emit("DRIFT", [l |-> l, step |-> i]))
               ELSE (r.success = ConnectImpl(r.c)) \/ Emit("DRIFT", [l |-> l, step |-> 0])
 Accepted == TLCGet("stats").diameter - 1 = Len(Trace)
 =============================================================================
